@@ -10,6 +10,9 @@ scan of package interp for open-file / os/exec call sites the model does not kno
 
 Name dimensions of the model (all judged against the same statement: every name meets the same flag checks and the same
 open-file function): four spellings of a regular file's path (absolute, ./relative, with "..", /dev/../...), /dev/null,
+a file name in a directory that does not exist (written and read; also relative to the root of a name-mapping OpenFile; the
+model says that nothing but files opened for writing through the open function comes into being -- the tree under the work
+directory is listed before and after every run),
 command lines that are empty / blank / start with blanks in all three process-starting forms, operands that are a directory,
 a missing file, the empty string, an assignment, "-".
 """
@@ -24,7 +27,9 @@ def run(ctx):
                 '(print to stdout / > / >> / |, close, fflush, system, getline < file, cmd | getline, operands; names '
                 'literal or computed at run time, incl. "-", /dev/stdout, /dev/stderr, /dev/null, a regular file spelled as absolute path / '
                 './relative / with ".." / as /dev/../<abs>, command lines "", "  " and "  cat", operands that are a directory, a missing '
-                'file, "" or v=1 (alone, or in front of any other operand), other-direction and close-then-reopen; the newer name '
+                'file, "" or v=1 (alone, or in front of any other operand), a file name in a directory that does not exist (print / printf '
+                '> and >>, getline, operand; absolute, computed, relative, relative to the root of a name-mapping OpenFile), '
+                'other-direction and close-then-reopen; the newer name '
                 'classes singly under every configuration and, one representative each, paired with every older action in both orders) '
                 'exported by TLC from Gen_IOStreams; or a session: two Execute calls on one reusable interp.Interpreter, a first '
                 'run (nothing / print > file / getline < file) under one configuration, then one I/O action under a configuration '
@@ -75,9 +80,9 @@ def run(ctx):
         for r in (c['runs'] if c.get('fam') == 'session' else [c]):
             for a in r['acts']:
                 if iocommon.new_dim_act(a):
-                    k = a['cls'] if a.get('cls') in iocommon.PATH_CLASSES else (a['op'] + ':' + a['name'])
+                    k = a['cls'] if a.get('cls') in iocommon.PATH_CLASSES and a['name'] != 'nd/g1' else (a['op'] + ':' + a['name'])
                     kinds[k] = kinds.get(k, 0) + 1
-    need = ['rel', 'dotdot', 'devdd', 'print:/dev/null', 'getline_file:/dev/null', 'operand:/dev/null', 'system:blank', 'system:empty',
+    need = ['print:nd/g1', 'getline_file:nd/g1', 'operand:nd/g1', 'rel', 'dotdot', 'devdd', 'print:/dev/null', 'getline_file:/dev/null', 'operand:/dev/null', 'system:blank', 'system:empty',
             'print:blank', 'getline_cmd:empty', 'system:spcat', 'operand:d1', 'operand:', 'operand:v=1']
     missing = [k for k in need if kinds.get(k, 0) < 8]
     if missing:
@@ -88,6 +93,11 @@ def run(ctx):
     if all(sig in iocommon.known_sigs(ctx) for sig in s['sig_counts']):
         ctx.selftest(ctx.path('sessions.ndjson'), ctx.pid, iocommon.corrupt_session, 'sessions')
         ctx.selftest(ctx.path('newdims.ndjson'), ctx.pid, iocommon.corrupt_new_dim, 'name-dimensions', k=24)
+        nlost = iocommon.split_cases(ctx, 'cases.ndjson', 'lost.ndjson', lambda c: c.get('fam') != 'session' and
+                                     any(a.get('name') == 'nd/g1' for a in c['acts']))
+        if nlost < 100:
+            raise MachineryError(f'Gen_IOStreams exported only {nlost} behaviours that touch a file name in a directory that does not exist')
+        ctx.selftest(ctx.path('lost.ndjson'), ctx.pid, iocommon.corrupt_new_dim, 'name-in-missing-directory', k=24)
     if not q:
         # sessions of THREE Execute calls on one Interpreter (single-flip configurations, one action in the later runs)
         gen3 = ctx.cfg('Gen_IOStreams', name='Gen_sessions3', constants={'Family': '"sandbox"', 'Depth': 3, 'Rich': 1, 'Runs': 3})
